@@ -161,7 +161,20 @@ func (e *Exec) runBody(th *Thread, fn *ssa.Function, free []Value, args []Value)
 	for {
 		fr.visits[blk]++
 		e.x.nBlocks++
-		if fr.visits[blk] > e.x.maxUnroll {
+		limit := e.x.maxUnroll
+		if fn.Pkg == e.x.pkg && (strings.HasPrefix(fn.Name(), "Harness") || strings.HasPrefix(fn.Name(), "vh")) {
+			limit = 1000 // the harness's own bookkeeping loops are concrete
+		}
+		if fr.visits[blk] > limit {
+			if th.id != 0 && e.x.params["spinok"] == 1 && e.local == nil {
+				// a background thread iterating without ever blocking: a busy loop. The thread is retired so
+				// that the rest of the system can be observed; the harness sees it through vSpins().
+				e.spins++
+				e.trace = append(e.trace, "S:spin@"+fn.Name())
+				th.state = tsDone
+				th.blockedOn = "busy loop in " + fn.Name()
+				e.switchFrom(th)
+			}
 			msg := fmt.Sprintf("unwinding bound %d exceeded in %s block %d", e.x.maxUnroll, fn, blk.Index)
 			panic(pathEnd{kind: "inconclusive", msg: msg})
 		}
